@@ -683,6 +683,25 @@ class Interp:
         if p in self.extra_models:
             return self.extra_models[p](self, st, fn, args, depth, stack)
         O, R, CF = self.OPTION, self.RESULT, self.CF
+        if tr in ("std::ops::Fn", "std::ops::FnMut", "std::ops::FnOnce") and nm in ("call", "call_mut", "call_once") and len(args) == 2:
+            # calling a function value (also through `dyn Fn`): devirtualise when the callee is a known closure / fn item
+            fv = args[0]
+            while fv[0] == "ref":
+                fv = self.load_ptr(st, fv[1])
+            while fv[0] == "box":
+                fv = fv[1]
+            if fv[0] in ("closure", "fn") and args[1][0] == "tup":
+                return self.apply(st, fv, list(args[1][1]), depth, stack)
+        if tr == "std::iter::Iterator" and nm == "filter" and len(args) == 2 and not fn.get("resolved_local"):
+            # an adaptor whose predicate is provably always true is the identity
+            probe = st.fork()
+            n_ev = len(probe.events)
+            try:
+                outs = self.apply(probe, args[1], [("ref", probe.alloc(("sym", "filter_item")))], depth + 1, stack)
+            except (Unsupported, PathLimit):
+                outs = []
+            if outs and all(v == ("const", "bool", True) and not [e for e in s2.events[n_ev:] if e[0] == "call"] for s2, v in outs):
+                return [(st, args[0])]
         if tr == "std::clone::Clone" and nm == "clone":
             return [(st, self.deref(st, args[0]))]
         if tr == "std::borrow::ToOwned" and nm == "to_owned":
